@@ -35,7 +35,7 @@ MANIFEST = dict(
 
 IMPORTS = ['Coq.Lists.List', 'Coq.Bool.Bool', 'Coq.ZArith.ZArith', 'Coq.Strings.String', 'SV.SM.Store', 'SV.SM.StoreCert',
            'SV.SM.StoreCopy', 'SV.SM.StoreCopySrc', 'SV.SM.StoreCopyExport', 'SV.SM.KvAdd', 'SV.SM.KvAddFresh',
-           'SV.Gen.CopyCensus_gen', 'SV.Gen.CopyExportReads_gen', 'SV.Props.C09']
+           'SV.SM.OpPurity', 'SV.Gen.CopyCensus_gen', 'SV.Gen.CopyExportReads_gen', 'SV.Gen.C09OpCensus_gen', 'SV.Props.C09']
 CORPUS = hc.VERIF / 'corpus' / 'C09'
 
 
@@ -147,6 +147,27 @@ def run_copy_case(kind: str, case_seed: int, variant: str, n_mut: int, collect: 
     return problems
 
 
+def _copy_job(job: tuple) -> tuple[list[dict], int]:
+    info: dict = {}
+    probs = run_copy_case(job[0], job[1], job[2], job[3], info)
+    return probs, info.get('size', 0)
+
+
+def _run_copy_cases(jobs: list[tuple]) -> list[tuple[list[dict], int]]:
+    """The copy cases are independent of each other (each has its own seed): run them in a small process pool, results
+    in job order (deterministic).  Falls back to the serial loop if no pool can be started."""
+    import multiprocessing as mp
+    import os
+    workers = max(1, min(4, (os.cpu_count() or 2) // 2))
+    if workers > 1 and len(jobs) >= 200:
+        try:
+            with mp.get_context('fork').Pool(workers) as pool:
+                return pool.map(_copy_job, jobs, chunksize=max(1, len(jobs) // (workers * 8)))
+        except (OSError, ValueError):
+            pass
+    return [_copy_job(j) for j in jobs]
+
+
 def search_copies(ck: Ck) -> None:
     from harness import c09_util as U
     n = _budget(ck, 2400, 40000)
@@ -161,9 +182,10 @@ def search_copies(ck: Ck) -> None:
         kind = ck.rng.choice(kinds)
         cases.append((kind, ck.rng.randrange(1 << 30), ck.rng.choice(sorted(U.copy_variants(kind)))))
     found: dict[str, tuple[dict, tuple]] = {}
-    for kind, seed, variant in cases:
-        info: dict = {}
-        probs = run_copy_case(kind, seed, variant, ck.rng.choice([3, 6, 12]), info)
+    jobs = [(kind, seed, variant, ck.rng.choice([3, 6, 12])) for kind, seed, variant in cases]
+    results = _run_copy_cases(jobs)
+    for (kind, seed, variant), (probs, size) in zip(cases, results):
+        info = {'size': size}
         ck.count('copy_cases')
         ck.hist('copy_kind', kind)
         ck.hist('copy_variant', f'{kind}.{variant}')
@@ -266,7 +288,7 @@ CONSISTENT = {
 }
 
 
-def corr_census_runtime(ck: Ck, side: dict) -> None:
+def corr_census_runtime(ck: Ck, side: dict, unfresh: tuple = ()) -> None:
     """The translator's census (static) against what copy() really does on generated objects (dynamic): for every
     class and data field, is the field of the copy the same object / a fresh container of the same elements / fresh
     all the way down, as the census says?  Guards the translator."""
@@ -320,7 +342,12 @@ def corr_census_runtime(ck: Ck, side: dict) -> None:
                 rt = runtime_how(a, b)
                 ck.hist('census_runtime', f'{how}->{rt}')
                 seen_fields.add((lab, f))
-                if rt not in CONSISTENT[how]:
+                ok_rt = set(CONSISTENT[how])
+                if how == 'HDeep' and unfresh:
+                    # HDeep = "the nested copy() / constructor census decides"; when one of those censuses itself
+                    # fails copy_fresh_mutables the census as a whole SAYS that mutables are shared below this field
+                    ok_rt.add('shallow')
+                if rt not in ok_rt:
                     bad.append((lab, f, rt, how))
     for lab, rows in census.items():
         for f, *_ in rows:
@@ -452,6 +479,77 @@ def search_operators(ck: Ck) -> None:
                 elif res is a and not type(a).__name__.startswith('Frozen') and name not in ('pos',):
                     ck.violation(f'operator-returns-operand:{name}({type(a).__name__})',
                                  f'{name} returned its mutable operand itself', {'op': name, 'a': repr(a)})
+
+
+def corr_op_census(ck: Ck, oside: dict) -> None:
+    """Every row of the operator census (Class.method, pure / in-place) is CALLED on generated operands: a row the
+    census calls pure must leave receiver and argument bit-identical and (mutable classes) return neither of them;
+    an in-place row may change only the receiver.  Guards the translator; a disagreement where the census says
+    'pure' is also reported as a concrete violation."""
+    from harness.c09_util import bits
+    import srctools.math as M
+    rows = oside.get('rows', [])
+    if not rows:
+        return
+    r = ck.rng
+    f = lambda: r.choice([0.0, -0.0, 1.0, -1.5, 90.0, 359.5, 1e-3, 37.25, 1024.0])
+
+    def make(cname: str):
+        if cname == 'Vec':
+            return M.Vec(f(), f(), f())
+        if cname == 'FrozenVec':
+            return M.FrozenVec(f(), f(), f())
+        if cname == 'Angle':
+            return M.Angle(f(), f(), f())
+        if cname == 'FrozenAngle':
+            return M.FrozenAngle(f(), f(), f())
+        m = M.Matrix.from_angle(M.Angle(f(), f(), f()))
+        return m if cname == 'Matrix' else m.freeze()
+    arg_makers = [None, lambda: 2.5, lambda: 2, lambda: (1.0, 2.0, 3.0), lambda: 'x', lambda: 0] + \
+        [(lambda c=c: make(c)) for c in ('Vec', 'FrozenVec', 'Angle', 'FrozenAngle', 'Matrix', 'FrozenMatrix')]
+    bad: list[tuple] = []
+    never: list[str] = []
+    for fam, cname, meth, kind, writes, rets in rows:
+        pure_row = kind == 'OpPure' and not (set(writes) & {'self', 'unknown'} or any(w.startswith('p') for w in writes))
+        called = 0
+        for mk in arg_makers:
+            for _ in range(2):
+                a = make(cname)
+                args = () if mk is None else (mk(),)
+                sa, sb = bits(a), tuple(bits(x) for x in args)
+                try:
+                    with warnings.catch_warnings():
+                        warnings.simplefilter('ignore')
+                        res = getattr(a, meth)(*args)
+                        if hasattr(res, '__next__'):
+                            res = list(res)
+                except Exception:
+                    continue
+                called += 1
+                ck.count('op_census_calls')
+                a_changed, b_changed = bits(a) != sa, tuple(bits(x) for x in args) != sb
+                mutable = cname in ('Vec', 'Angle', 'Matrix')
+                ret_operand = any(res is x for x in (a,) + args if hasattr(x, 'copy') and not type(x).__name__.startswith('Frozen'))
+                if kind == 'OpPure' and (a_changed or b_changed or (mutable and ret_operand and 'self' not in rets and not any(x.startswith('p') for x in rets))):
+                    what = 'receiver changed' if a_changed else 'argument changed' if b_changed else 'returned an operand'
+                    bad.append((f'{cname}.{meth}', what, repr(args)))
+                    if pure_row:
+                        ck.violation(f'op-census-row:{cname}.{meth}', f'{cname}.{meth}{args!r}: {what} although the operator census '
+                                     f'classifies the method as pure', {'class': cname, 'method': meth, 'args': repr(args),
+                                                                       'receiver_before': repr(sa), 'receiver_after': repr(a)})
+                if kind == 'OpInplace' and b_changed:
+                    bad.append((f'{cname}.{meth}', 'in-place operator changed its argument', repr(args)))
+        if not called:
+            never.append(f'{cname}.{meth}')
+        else:
+            ck.seen(('oprow', cname, meth))
+    ck.obligation('correspondence:op_census_vs_runtime', not bad,
+                  f'{len(rows)} census rows (class, operator) called on generated operands: operands bit-identical afterwards for '
+                  f'pure rows, only the receiver changed for in-place rows; disagreements: {bad[:6]}; rows that could not be '
+                  f'called with any probe argument: {never[:12]}')
+    ck.extra['op_census_rows_not_exercised'] = never
+    if bad:
+        ck.tie_broken.append('operator census disagrees with run-time behaviour: ' + repr(bad[:3]))
 
 
 # ------------------------------------------------------------------------------------------------ Keyvalues + / += / extend
@@ -717,7 +815,10 @@ def run(ck: Ck) -> None:
     side = ck.extra.get('translated', {}).get('CopyCensus_gen', {})
     ok_e = ck.translate('CopyExportReads_gen', c09_export.translate)
     eside = ck.extra.get('translated', {}).get('CopyExportReads_gen', {})
-    built = ok_t and ok_e and ck.build(['Props/C09.vo'])
+    from translate import c09_ops
+    ok_o = ck.translate('C09OpCensus_gen', c09_ops.translate)
+    oside = ck.extra.get('translated', {}).get('C09OpCensus_gen', {})
+    built = ok_t and ok_e and ok_o and ck.build(['Props/C09.vo'])
     if ok_t:
         ck.sample({'census_Side(field, kind, how, source expression)': side.get('census', {}).get('Side')})
     if built:
@@ -739,6 +840,11 @@ def run(ck: Ck) -> None:
         obs['kv_add_iter_branch_appends_copy'] = 'kv_add_iter_copied'
         obs['kv_iadd_single_branch_appends_copy'] = 'kv_iadd_single_copied'
         obs['kv_iadd_iter_branch_appends_copy'] = 'kv_iadd_iter_copied'
+        for fam in ('Vec', 'Angle', 'Matrix'):
+            obs[f'ops_store_nothing_to_operands:{fam}'] = f'ops_store_nothing_to_operands op_census_{fam}'
+            obs[f'ops_return_fresh:{fam}'] = f'ops_return_fresh op_census_{fam}'
+            obs[f'inplace_ops_write_only_self:{fam}'] = f'inplace_ops_write_only_self op_census_{fam}'
+        obs['op_census_size'] = 'Nat.leb 150 (List.length op_census_all) && Nat.eqb (List.length op_census_all) %d' % oside.get('n_rows', -1)
         obs['all_sources_present'] = 'Nat.eqb (List.length all_sources) %d && all_sources_match' % len(side.get('classes', []))
         obs['all_classes_present'] = 'Nat.eqb (List.length all_census) %d' % len(side.get('classes', []))
         res = ck.instance_obligations(IMPORTS, obs)
@@ -751,14 +857,20 @@ def run(ck: Ck) -> None:
             if detail:
                 ck.extra['census_offending_fields(not_covered, not_fresh, wrong_source, export_broken)'] = {
                     c: d for c, d in zip(side.get('classes', []), detail) if d.replace(' ', '') not in ('(nil,nil,nil,nil)', '([],[],[],[])')}
+            bad_ops = ck.coq_eval(IMPORTS, ['offending_ops op_census_all'], name='ops_detail')
+            if bad_ops:
+                ck.extra['op_census_offending_rows'] = bad_ops[0]
+                ck.extra['op_census_offending_detail'] = [r for r in oside.get('rows', []) if f'"{r[1]}.{r[2]}"' in bad_ops[0]][:20]
+            if detail:
                 ck.extra['census_sources_of_offending_classes'] = {
                     c: side.get('sources', {}).get(c) for c in side.get('classes', []) if not res.get(f'copy_sources_match:{c}', True)}
         lap('instance_obligations')
         cert_cases(ck)
         lap('certificates')
-        corr_census_runtime(ck, side)
+        corr_census_runtime(ck, side, tuple(k for k, v in res.items() if k.startswith('copy_fresh_mutables:') and not v))
         corr_export_reads(ck, side, eside)
         corr_kv_add(ck, side)
+        corr_op_census(ck, oside)
         lap('correspondences')
     search_copies(ck)
     lap('search_copies')
@@ -795,6 +907,12 @@ def run(ck: Ck) -> None:
         ck.explain('instance:all_sources_present')
     if any_key('shared-mutable:', 'mutation-visible:'):
         ck.explain('certificate:export_ok')
+    if any_key('operand-changed:', 'operator-returns-operand:', 'op-census-row:'):
+        for fam in ('Vec', 'Angle', 'Matrix'):
+            ck.explain(f'instance:ops_store_nothing_to_operands:{fam}')
+            ck.explain(f'instance:ops_return_fresh:{fam}')
+            ck.explain(f'instance:inplace_ops_write_only_self:{fam}')
+        ck.explain('correspondence:op_census_vs_runtime')
 
 
 def replay(data: dict) -> int:
